@@ -27,8 +27,8 @@ RULE = ("cases are whole TTML documents enumerated by mixed-radix index per fami
         "the aspect under test; an E-dev case when the corrupted value is rejected by the reference grammar (all are)")
 BOUNDS = {
   "quick": "F-time: all element trees over {body,div,p,span,br,set} of depth <= 4 with <= 4 elements x the full product of "
-           "{par,seq} x begin{-,1s} x dur{-,2s} x end{-,3s} on every node (set: begin/dur/end; body of 4-element trees and every node "
-           "of the 5-element trees: {par,seq} x {-,begin,end,begin+dur}; body of 5-element trees untimed), text on leaf p/span, set "
+           "{par,seq} x begin{-,1s} x dur{-,2s} x end{-,3s} on every node (set: begin/dur/end; body of 4-element trees: {par,seq} x "
+           "{-,begin,end,begin+dur}; every node of the 5-element trees: {par,seq} x {-,end,begin+dur}, their body untimed), text on leaf p/span, set "
            "children only in par containers; F-expr: 9 syntaxes x 5-9 boundary values x frameRate{-,24,25,30} x multiplier{-,1000 1001} x "
            "tickRate{-,1,10000000} x {begin,end,dur}; F-graph: 3 style elements x reference lists {[],a,b,ab,ba,missing} each x which set "
            "tts:color x element references (12 lists of <= 2 incl. a missing id) x inline, target p; region target with 0-2 nested styles "
@@ -37,7 +37,7 @@ BOUNDS = {
            "F-regiontime; F-initial; E-dev: every attribute of 4 structural seeds and of 2 value forms x 5 carriers per style attribute "
            "x 7 malformed values",
   "thorough": "as quick with: F-time <= 4 elements additionally text{yes,no} on every leaf and the full domain on body; 5-element trees "
-              "with body timed; all 6-element trees (body untimed); F-graph with the mixed missing-id reference lists (10 per style); "
+              "with body timed; all 6-element trees (body untimed, per node {par,seq} x {-,end,begin+dur}); F-graph with the mixed missing-id reference lists (10 per style); "
               "F-mixed sequences <= 5",
 }
 ASSUMPTIONS = [
@@ -426,12 +426,12 @@ def plan(tier, seed):
   if tier == "quick":
     fams.append(_family("F-time[<=4,full]", fam.fam_time((1, 2, 3, 4), True, False, body_reduced_from=4),
                         "all trees <= 4 elements x {par,seq} x begin{-,1s} x dur{-,2s} x end{-,3s} on every node (body of 4-element trees: {-,begin,end,begin+dur})"))
-    fams.append(_family("F-time[5,reduced]", fam.fam_time((5,), False, False, True),
-                        "all trees of 5 elements, body untimed, per node {par,seq} x {-,begin,end,begin+dur}"))
+    fams.append(_family("F-time[5,reduced]", fam.fam_time((5,), "red3", False, True),
+                        "all trees of 5 elements, body untimed, per node {par,seq} x {-,end,begin+dur}"))
   else:
     fams.append(_family("F-time[<=4,full,text]", fam.fam_time((1, 2, 3, 4), True, True), "as quick plus text{yes,no} on leaves"))
     fams.append(_family("F-time[5,reduced,body]", fam.fam_time((5,), False, False, False), "5 elements, body timed too"))
-    fams.append(_family("F-time[6,reduced]", fam.fam_time((6,), False, False, True), "6 elements, body untimed"))
+    fams.append(_family("F-time[6,reduced]", fam.fam_time((6,), "red3", False, True), "6 elements, body untimed, per node {par,seq} x {-,end,begin+dur}"))
   fams.append(_family("F-graph[p]", fam.fam_graph(tier != "quick", False),
                       "3 style elements, every reference list of length <= 2 among them incl. a missing id (quick: no mixed missing lists) "
                       "x which of them set tts:color x element references (<= 2, incl. missing) x inline"))
